@@ -157,6 +157,7 @@ CORE = {
     'C01': (['C01_QuiescentOK'], []),
     'C02': (['C02_Lifecycle'], []),
     'C03': (['C03_ParentDone', 'C03_ProcMirrorsRoot', 'C03_Events', 'C03_TerminalEvent', 'C03_CleanEnding'], []),
+    'C04': (['C04_Outcome', 'C04_Order', 'C01_QuiescentOK'], []),
     'C05': (['C05_Admission', 'C05_TerminalRejected', 'C05_AtMostOnce', 'C05_NoDupSuccessor'], ['C05_RejectedIsNoop']),
     'C06': (['C06_Propagates', 'C06_CatchMatches', 'C06_CatchStepsOnce', 'C06_CaughtCompletes'], []),
     'C08': (['C08_AtMostOne', 'C08_CreatedFirst', 'C08_TerminalReported', 'C08_BranchSilent', 'C08_MsgAct',
@@ -165,10 +166,11 @@ CORE = {
 
 TIERS = {
     'quick': dict(mc_family='hand+core6', mc_budget=1, mc_workers=8, mc_timeout=900,
-                  rand_family='hand+core6', rand_runs=2400, rand_shards=8, rand_budget=4, rand_pact=0.35),
+                  rand_family='hand+core6', rand_runs=2400, rand_shards=8, rand_budget=4, rand_pact=0.35,
+                  nat_runs=1000, nat_shards=2),
     'thorough': dict(mc_family='hand+core7', mc_budget=2, mc_workers=12, mc_timeout=7200,
                      rand_family='hand+core7+branchy', rand_runs=40000, rand_shards=14, rand_budget=5,
-                     rand_pact=0.35),
+                     rand_pact=0.35, nat_runs=20000, nat_shards=4),
 }
 
 
@@ -319,6 +321,15 @@ def record_traces(tier, seed, key):
                            '--pact', str(t['rand_pact']), '--budget', str(t['rand_budget']), '--kinds', kinds,
                            '--workdir', d + '/run']))
 
+    # 3. ungated runs on current-thread and 1..8-worker runtimes (thread-count independence);
+    #    one process at a time per harness process, so few shards
+    per = (t['nat_runs'] + t['nat_shards'] - 1) // t['nat_shards']
+    for i in range(t['nat_shards']):
+        out = '%s/nat-%02d.ndjson' % (d, i)
+        jobs.append((out, [HARNESS, 'natural', '--models', fam, '--out', out, '--runs', str(per),
+                           '--seed', str(seed * 1000 + 500 + i), '--offset', str((i * per) % nmodels),
+                           '--workdir', d + '/run']))
+
     def run(job):
         out, cmd = job
         p = sh(cmd, timeout=3600)
@@ -350,7 +361,13 @@ def ensure_traces(tier, seed):
 
     def validate(f):
         tag = 'tr-' + os.path.basename(f).replace('.ndjson', '')
-        s = strict_validate(f, tag)
+        if os.path.basename(f).startswith('nat-'):
+            # natural runs record one step per quiescent point: nothing for STRICT to match
+            n = count_lines(f)
+            sc = sum(1 for ln in open(f) if '"ev":"model"' in ln)
+            s = dict(lines=n, scenarios=sc, drift=[], wall=0.0, accepted=0, natural=True)
+        else:
+            s = strict_validate(f, tag)
         o = observe_validate(f, tag)
         return dict(file=f, strict=s, observe=o)
 
@@ -431,6 +448,7 @@ def check_core(prop, tier, seed):
 
     # legs 2+3: the implementation
     tr = ensure_traces(tier, seed)
+    n_nat = sum(f['strict']['scenarios'] for f in tr['files'] if f['strict'].get('natural'))
     n_scen = sum(f['strict']['scenarios'] for f in tr['files'])
     n_lines = sum(f['strict']['lines'] for f in tr['files'])
     n_acc = sum(f['strict']['accepted'] for f in tr['files'])
@@ -493,7 +511,7 @@ def check_core(prop, tier, seed):
                             family=os.path.basename(mc['family']), models=mc['models'],
                             client_action_budget=mc['budget'], action_kinds=ALL_KINDS,
                             queue='bag: every arrival order', tlc_wall_s=round(mc['wall'], 1)),
-        conformance=dict(scenarios=n_scen, trace_lines=n_lines, strict_accepted=n_acc,
+        conformance=dict(scenarios=n_scen, natural_runs_observed=n_nat, trace_lines=n_lines, strict_accepted=n_acc,
                          strict_drift=len(drift), drift_first=drift[:3],
                          observe_violations=len(violations), known_findings_seen=known_seen,
                          trace_set=tr['key']),
